@@ -147,22 +147,20 @@ func (c19) Gen(rng *rand.Rand, tier string, idx int) Case {
 		c.Stat = append(c.Stat, "with-stop")
 	}
 	c.Ops = append(c.Ops, []string{"stats"})
-	for i := 0; i < nprod*rows*14+12; i++ {
-		c.Ops = append(c.Ops, []string{"q"})
-	}
+	c.Ops = append(c.Ops, []string{"q", itoa(int64(nprod*rows*16 + 16))})
 	c.Ops = append(c.Ops, []string{"stats"})
 	return c
 }
 
 type c19run struct {
-	s      *sched
+	s      *c19Sched
 	ssql   *streamsql.Streamsql
 	st     *stream.Stream
 	nprod  int
 	rows   int
-	prods  []*sthread
-	cons   *sthread
-	stop   *sthread
+	prods  []*c19Thread
+	cons   *c19Thread
+	stop   *c19Thread
 	sinkMu sync.Mutex
 	seen   [][2]int
 	seenAt int
@@ -219,39 +217,39 @@ func (r *c19run) held() chan map[string]interface{} {
 	return nil
 }
 
-func (r *c19run) finished(t *sthread) bool { return t.status == stFin }
+func (r *c19run) finished(t *c19Thread) bool { return t.status == c19StFin }
 
-func (r *c19run) contention(t *sthread) bool {
+func (r *c19run) contention(t *c19Thread) bool {
 	if t == r.stop {
-		if t.status == stParked && t.point == "stop.done" {
+		if t.status == c19StParked && t.point == "stop.done" {
 			for _, p := range r.prods {
-				if (p.status == stParked || p.status == stBlocked) && (p.point == "expand.wlock" || p.point == "expand.mig") {
+				if (p.status == c19StParked || p.status == c19StBlocked) && (p.point == "expand.wlock" || p.point == "expand.mig") {
 					return true
 				}
 			}
 		}
 		return false
 	}
-	if t != r.cons && t.status == stParked && t.point == "expand.wlock" && r.stop != nil && r.stop.status == stBlocked {
+	if t != r.cons && t.status == c19StParked && t.point == "expand.wlock" && r.stop != nil && r.stop.status == c19StBlocked {
 		return true
 	}
 	return false
 }
 
 func (r *c19run) heldEmpty() bool {
-	if r.cons.status != stParked {
+	if r.cons.status != c19StParked {
 		return false
 	}
 	h := r.held()
 	return h == nil || len(h) == 0
 }
 
-func (r *c19run) steppable(t *sthread) bool {
-	return t.status == stParked && !r.contention(t) && !(t == r.cons && r.heldEmpty())
+func (r *c19run) steppable(t *c19Thread) bool {
+	return t.status == c19StParked && !r.contention(t) && !(t == r.cons && r.heldEmpty())
 }
 
-func (r *c19run) threads() []*sthread {
-	out := append([]*sthread{}, r.prods...)
+func (r *c19run) threads() []*c19Thread {
+	out := append([]*c19Thread{}, r.prods...)
 	out = append(out, r.cons)
 	if r.stop != nil {
 		out = append(out, r.stop)
@@ -260,19 +258,19 @@ func (r *c19run) threads() []*sthread {
 }
 
 // doStep = the driver's doStep: release one thread, settle, report.
-func (r *c19run) doStep(t *sthread, tick bool) [][]string {
+func (r *c19run) doStep(t *c19Thread, tick bool) [][]string {
 	if t == nil {
 		return [][]string{{"bad-thread"}}
 	}
-	if t.status != stParked || r.contention(t) || (t == r.stop && t.point == "stop.wait") {
-		return [][]string{{"th", t.name, "skip"}}
+	if t.status != c19StParked || r.contention(t) || (t == r.stop && t.point == "stop.wait") {
+		return [][]string{{"th", t.name, "skip"}, r.stLine()}
 	}
 	if t == r.cons && !tick && r.heldEmpty() {
-		return [][]string{{"th", "cons", "skip-empty"}}
+		return [][]string{{"th", "cons", "skip-empty"}, r.stLine()}
 	}
 	var out [][]string
 	r.s.clearMarks()
-	wasIn := map[*sthread]bool{}
+	wasIn := map[*c19Thread]bool{}
 	for _, p := range r.prods {
 		wasIn[p] = p.inEmit
 	}
@@ -294,19 +292,19 @@ func (r *c19run) doStep(t *sthread, tick bool) [][]string {
 	r.seenAt = len(r.seen)
 	r.sinkMu.Unlock()
 	for _, p := range r.prods {
-		if wasIn[p] && p.moved && (p.point == "emit.call" || p.point == "fin") && (p.status == stParked || p.status == stFin) {
+		if wasIn[p] && p.moved && (p.point == "emit.call" || p.point == "fin") && (p.status == c19StParked || p.status == c19StFin) {
 			p.inEmit = false
 			out = append(out, []string{"ret", p.name[1:], strconv.Itoa(p.k - 1)})
 		}
 	}
 	for _, th := range r.threads() {
-		if th.status == stBlocked && th.newBlocked {
+		if th.status == c19StBlocked && th.newBlocked {
 			out = append(out, []string{"th", th.name, "blocked"})
-		} else if th.moved && th.status != stBlocked && th.status != stRunning {
+		} else if th.moved && th.status != c19StBlocked && th.status != c19StRunning {
 			out = append(out, []string{"th", th.name, th.point})
 		}
 	}
-	return out
+	return append(out, r.stLine())
 }
 
 func (r *c19run) counters() (int64, int64) {
@@ -317,10 +315,14 @@ func (r *c19run) counters() (int64, int64) {
 func (r *c19run) stLine() []string {
 	in, dr := r.counters()
 	ch := r.st.VerifDataChan()
-	return []string{"st", itoa(in), itoa(dr), strconv.Itoa(len(ch)), strconv.Itoa(cap(ch))}
+	hl := "-"
+	if r.cons.status == c19StParked && r.held() != nil {
+		hl = strconv.Itoa(len(r.held()))
+	}
+	return []string{"st", itoa(in), itoa(dr), strconv.Itoa(len(ch)), strconv.Itoa(cap(ch)), hl}
 }
 
-func (r *c19run) byName(n string) *sthread {
+func (r *c19run) byName(n string) *c19Thread {
 	for _, t := range r.threads() {
 		if t.name == n {
 			return t
@@ -331,28 +333,46 @@ func (r *c19run) byName(n string) *sthread {
 
 func (r *c19run) statsSafe() bool {
 	for _, t := range r.threads() {
-		if (t.status == stParked || t.status == stBlocked) && t.point == "expand.mig" {
+		if (t.status == c19StParked || t.status == c19StBlocked) && t.point == "expand.mig" {
 			return false
 		}
-		if t.status == stBlocked && (t.point == "expand.wlock" || t.point == "stop.done") {
+		if t.status == c19StBlocked && (t.point == "expand.wlock" || t.point == "stop.done") {
 			return false
 		}
 	}
 	return true
 }
 
+// qStep = the driver's doQ: one step of the quiescing policy (round-robin over producers and consumer).
+func (r *c19run) qStep() [][]string {
+	order := append(append([]*c19Thread{}, r.prods...), r.cons)
+	n := len(order)
+	for k := 0; k < n; k++ {
+		idx := (r.rr + k) % n
+		if r.steppable(order[idx]) {
+			out := r.doStep(order[idx], false)
+			r.rr = idx + 1
+			return out
+		}
+	}
+	if r.cons.status == c19StParked && r.heldEmpty() && len(r.st.VerifDataChan()) > 0 {
+		return r.doStep(r.cons, true)
+	}
+	return [][]string{{"idle"}}
+}
+
 func (r *c19run) op(op []string) [][]string {
 	switch {
 	case len(op) == 2 && op[0] == "step":
-		return append(r.doStep(r.byName(op[1]), false), r.stLine())
+		return r.doStep(r.byName(op[1]), false)
 	case len(op) == 1 && op[0] == "tick":
-		return append(r.doStep(r.cons, true), r.stLine())
+		return r.doStep(r.cons, true)
 	case len(op) == 4 && op[0] == "run":
 		t := r.byName(op[1])
 		mx, _ := strconv.Atoi(op[3])
 		var out [][]string
 		for i := 0; i < mx && t != nil; i++ {
-			if (t.status == stParked || t.status == stFin) && t.point == op[2] || !r.steppable(t) {
+			if (t.status == c19StParked || t.status == c19StFin) && t.point == op[2] || !r.steppable(t) {
 				break
 			}
 			out = append(out, r.doStep(t, false)...)
@@ -360,22 +380,18 @@ func (r *c19run) op(op []string) [][]string {
 				break
 			}
 		}
-		return append(out, r.stLine())
-	case len(op) == 1 && op[0] == "q":
-		order := append(append([]*sthread{}, r.prods...), r.cons)
-		n := len(order)
-		for k := 0; k < n; k++ {
-			idx := (r.rr + k) % n
-			if r.steppable(order[idx]) {
-				out := r.doStep(order[idx], false)
-				r.rr = idx + 1
-				return append(out, r.stLine())
+		return out
+	case len(op) == 2 && op[0] == "q":
+		mx, _ := strconv.Atoi(op[1])
+		var out [][]string
+		for i := 0; i < mx && !r.s.stuck; i++ {
+			one := r.qStep()
+			out = append(out, one...)
+			if len(one) == 1 && one[0][0] == "idle" {
+				break
 			}
 		}
-		if r.cons.status == stParked && r.heldEmpty() && len(r.st.VerifDataChan()) > 0 {
-			return append(r.doStep(r.cons, true), r.stLine())
-		}
-		return [][]string{{"idle"}, r.stLine()}
+		return out
 	case len(op) == 1 && op[0] == "stats":
 		if !r.statsSafe() {
 			return [][]string{{"stats", "unsafe"}}
@@ -429,7 +445,7 @@ func (c19) Exec(c Case) [][][]string {
 	if timeout {
 		timed = append(timed, "block.send")
 	}
-	s := newSched(c19Points, timed)
+	s := c19NewSched(c19Points, timed)
 	r := &c19run{s: s, nprod: nprod, rows: rows}
 	var stp atomic.Pointer[stream.Stream]
 	s.adopt = func(point string) string {
